@@ -1,3 +1,4 @@
+import pandas as pd
 from unidecode import unidecode
 
 from reamber.algorithms.convert.ConvertBase import ConvertBase
@@ -31,14 +32,13 @@ class BMSToQua(ConvertBase):
         qua.bpms = cls.cast(bms.bpms, QuaBpmList, dict(offset="offset", bpm="bpm"))
 
         qua.title = unidecode(bms.title.decode("sjis"))
-        qua.mode = QuaMapMode.get_mode(int(bms.stack().column.max() + 1))
+        # BMS keeps no key count: the highest column + 1, unknown without notes
+        keys = bms.stack().column.max() + 1
+        qua.mode = "" if pd.isna(keys) else QuaMapMode.get_mode(int(keys))
         qua.difficulty_name = unidecode(bms.version.decode("sjis"))
         qua.artist = unidecode(bms.artist.decode("sjis"))
 
         if raise_bad_mode and not qua.mode:
-            raise ValueError(
-                f"Keys {int(bms.stack().column.max() + 1)} isn't supported"
-                f"by Quaver."
-            )
+            raise ValueError(f"Keys {keys} isn't supported by Quaver.")
 
         return qua
